@@ -79,6 +79,10 @@ CHECKS = {
    technique="TLC trace validation (Trace_AnkoContainers.tla) of recorded histories of container statements against AnkoContainers.tla (Go slice-header/backing-array, map, typed-store and struct-field rules; capacity growth nondeterministic)",
    text="The specification keeps the heap of backing arrays and slice headers explicitly, so aliasing, writes through shared storage, appends within and beyond capacity and 3-index capacity limits are part of the state; each recorded statement's result and the whole projection after it (contents, len, cap, storage sharing measured through data pointers, map contents, fields) must be a step the specification allows, with errors leaving everything unchanged.",
    note="Trusted: TLC; the harness' projection through reflection (data pointers for sharing). Bounds: seeded random histories (400x30 quick, 6000x40 thorough) over 7 variables, ~26 operation kinds; points the statement leaves open end the judged part of a history. Strings are covered only through C20/C05 templates."),
+ "C11": dict(level="model_checking", design="5 (C11), 3.8",
+   technique="TLC enumerates the conversion table and call-shape table of AnkoCall.tla over signatures x argument tuples x call shapes (tables checked total); replay against host functions built with reflect.MakeFunc comparing the arguments actually received; scenario checks for round trips, members, methods, results and callbacks",
+   text="Which argument feeds which parameter, whether the call is delivered or rejected, and how each value is converted (identity, Go conversion, zero value, element-wise, callback adapter, error) are decided by the TLA+ tables for every combination of the bounded pools and compared with what a reflect-built host function of that very signature receives; identity round trips, field access through values and pointers, value/pointer-receiver methods, variadic and spread delivery, multiple results and callback conversion/error surfacing are checked on concrete host values.",
+   note="Trusted: reflect.Convert as Go's own conversion; TLC. Bounds: 15 parameter types, 15 argument kinds, one- and two-parameter and variadic signatures, ~8.5k cases, 50 scenarios."),
 # <<ADD>>
 }
 
